@@ -20,7 +20,7 @@
     __CPROVER_loop_invariant(i <= un->size && *nnz <= i) \
     __CPROVER_loop_invariant(ev->mytype == edge_type__FLOAT && ev->ev_float == 0.0f) \
     __CPROVER_loop_invariant(*nnz != 0 || firstval == 0.0f) \
-    __CPROVER_loop_invariant(ghost_g >= i || un->_down[ghost_g] == 0 || (*nnz >= 1 && EVF(un, ghost_g) == __CPROVER_loop_entry(EVF(un, ghost_g)))) \
+    __CPROVER_loop_invariant(ghost_g >= i || un->_down[ghost_g] == 0 || (*nnz >= 1 && un->_edge[ghost_g].mytype == edge_type__FLOAT && EVF(un, ghost_g) == __CPROVER_loop_entry(EVF(un, ghost_g)))) \
     __CPROVER_loop_invariant(ghost_g >= i || un->_down[ghost_g] != 0 || (un->_edge[ghost_g].mytype == edge_type__FLOAT && EVF(un, ghost_g) == 0.0f)) \
     __CPROVER_loop_invariant(ghost_g < i || (un->_edge[ghost_g].mytype == edge_type__FLOAT && EVF(un, ghost_g) == __CPROVER_loop_entry(EVF(un, ghost_g)))) \
     __CPROVER_loop_invariant(ghost_h >= i || un->_down[ghost_h] == 0 || *nnz >= 1) \
@@ -30,7 +30,8 @@
     __CPROVER_assigns(i, __CPROVER_object_whole(un->_edge)) \
     __CPROVER_loop_invariant(i <= un->size) \
     __CPROVER_loop_invariant(un->_edge[ghost_g].mytype == edge_type__FLOAT) \
-    __CPROVER_loop_invariant(ghost_g < i ? FEQ(EVF(un, ghost_g), FDIV(__CPROVER_loop_entry(EVF(un, ghost_g)), firstval)) : EVF(un, ghost_g) == __CPROVER_loop_entry(EVF(un, ghost_g))) \
+    __CPROVER_loop_invariant(un->_down[ghost_g] != 0 || EVF(un, ghost_g) == 0.0f || firstval != firstval) \
+    __CPROVER_loop_invariant(un->_down[ghost_g] == 0 || ghost_g < i || EVF(un, ghost_g) == __CPROVER_loop_entry(EVF(un, ghost_g))) \
     __CPROVER_decreases(un->size - i)
 /* createReducedNode: 1 = termprec rounding (unreachable here), 2 = count non-zero children, 3/4 = redundancy scans */
 #define LOOP_forest__createReducedNode_1 __CPROVER_assigns(i, nnz, __CPROVER_object_whole(un->_down)) __CPROVER_loop_invariant(i <= un->size)
